@@ -440,7 +440,19 @@ func upstreamProcsForProc(proc WorkflowProcess) map[string]WorkflowProcess {
 		}
 	}
 	for _, pip := range proc.InParamPorts() {
+		// Parameter ports fed with FromStr() have a feeder go-routine that
+		// disconnects itself when done, so read the remote ports under the lock
+		pip.closeLock.Lock()
+		rpps := []*OutParamPort{}
 		for _, rpp := range pip.RemotePorts {
+			rpps = append(rpps, rpp)
+		}
+		pip.closeLock.Unlock()
+		for _, rpp := range rpps {
+			// Such feeders belong to the process itself, which is not upstream of itself
+			if rpp.Process() == proc {
+				continue
+			}
 			procs[rpp.Process().Name()] = rpp.Process()
 			mergeWFMaps(procs, upstreamProcsForProc(rpp.Process()))
 		}
